@@ -34,7 +34,7 @@ class WindyGridWorld(GridMDP):
         self.step_cost = step_cost
         self.wall_bump_cost = wall_bump_cost
         self.wind_probability = wind_probability
-        self.feature_rewards = feature_rewards
+        self.feature_rewards = feature_rewards if feature_rewards is not None else {}
         super().__init__(grid)
 
     def initial_state_dist(self):
